@@ -9,14 +9,15 @@
                         ReportStats.__init__                      by0, (mkStats 0 by0 None 0)
                         ReportStats.from_results                  from_results   (bump_status = `tests_nb_by_status[s] += 1`)
                         ReportStats.from_report                   from_report
-                        ReportStats.from_suites                   from_suites
+                        ReportStats.from_suites                   from_suites      (F13 repaired; from_suites_unfixed = before)
                         ReportStats.tests_enabled_nb              enabled_nb
                         flatten_results                           suites_results  (= flat_map suite_results o flatten_suites)
                         Report.nb_tests / Report.parallelized     nb_tests / parallelized
                         Report.build_message +
-                          _report_message_variables               message_ints (integer variables + the TypeError of `duration`)
-                        _percent, successful_tests_percentage     pct_float (IEEE double, primitive floats) ; pct_exact is the
-                                                                  exact floor(100*val/of) it is compared with
+                          _report_message_variables               message_ints (integer variables; "n/a" of duration; F14 repaired;
+                                                                  message_ints_unfixed = before)
+                        _percent, successful_tests_percentage     pct  (integer arithmetic `val * 100 // of if of else 0`, F18
+                                                                  repaired) ; message_pcts ; summary_pct
    testtree.py          BaseSuite.filter / SuiteResult.filter     filter_suite
                         SuiteResult.is_empty                      suite_is_empty
                         filter_suites                             filter_suites
@@ -31,11 +32,15 @@
      `if test.status:`            status neither None nor ""                    -> status_truthy
      `result.duration or 0`       None or 0.0 -> 0                                -> dur_or_0
      `if suite.suite_setup:`      Result has no __bool__/__len__: `is not None`   -> opt_list (Report.v suite_results)
-     `if of else 0` (_percent)    of = 0                                          -> pct_float / pct_exact
+     `if of else 0` (_percent)    of = 0                                          -> pct
+     `if results and not parallelized`  empty list                                  -> from_suites
      `if stats.tests_nb_by_status["skipped"]:`  zero test                         -> nz
      `if test_filter:`            ResultFilter.__bool__                           -> the `truthy` argument / rf_truthy
      `if self.statuses else True` empty set                                       -> rf_apply
-   Times are integer milliseconds; the float subtraction `end_time - start_time` is modelled as Z subtraction. *)
+   Times are integer milliseconds; the float subtraction `end_time - start_time` is modelled as Z subtraction.
+
+   The definitions named `..._unfixed` describe the code BEFORE the repairs F13 / F14 (DESIGN.md section 6); they are tied to
+   nothing and are only what the `C20_..._unfixed_refuted` witnesses of Props/C20.v are stated about. *)
 From Coq Require Import List NArith ZArith Bool.
 Import ListNotations.
 From LCC Require Import Base.Util Model.Report.
@@ -117,14 +122,27 @@ Definition from_results (results : list (rkind * result)) (duration : option Z) 
   | VErr e => VErr e
   end.
 
+Definition is_nil {A} (l : list A) : bool := match l with [] => true | _ => false end.
+Definition is_none {A} (o : option A) : bool := match o with None => true | _ => false end.
 Definition report_duration (r : report) : option Z := get_duration (rp_start r) (rp_end r).
 Definition from_report (r : report) : vres stats := from_results (all_results r) (report_duration r).
 
 Definition suites_results (suites : list suite_result) : list (rkind * result) :=
   flat_map suite_results (flatten_suites suites).
 
-(* results[-1].end_time - results[0].start_time if not parallelized else None *)
+(* _get_duration(results[0].start_time, results[-1].end_time) if results and not parallelized else None *)
+Definition suites_duration (results : list (rkind * result)) (parallel : bool) : option Z :=
+  if parallel then None
+  else match results with
+       | [] => None
+       | first :: _ => get_duration (r_start (snd first)) (r_end (snd (last results first)))
+       end.
 Definition from_suites (suites : list suite_result) (parallel : bool) : vres stats :=
+  let results := suites_results suites in from_results results (suites_duration results parallel).
+
+(* BEFORE F13: results[-1].end_time - results[0].start_time if not parallelized else None
+   (IndexError on an empty selection, TypeError as soon as one of the two times is None) *)
+Definition from_suites_unfixed (suites : list suite_result) (parallel : bool) : vres stats :=
   let results := suites_results suites in
   if parallel then from_results results None
   else match results with
@@ -141,11 +159,12 @@ Definition enabled_nb (c : by_status) : nat := n_passed c + n_failed c + n_skipp
 Definition nb_tests (r : report) : nat := length (all_tests r).
 Definition parallelized (r : report) : bool := (1 <? rp_nb_threads r)%Z && (1 <? nb_tests r).
 
-(* ---------------- Report.build_message: the variables, evaluated in dict order ----------------
-   start_time / end_time: time.asctime(time.localtime(None)) is the current time, no error;
-   duration: report.end_time - report.start_time -> TypeError when one of them is None; then the integer variables. *)
+(* ---------------- Report.build_message: the variables, all evaluated (in dict order) ----------------
+   start_time / end_time: time.asctime(time.localtime(None)) is the CURRENT time, no error: these two texts depend on the clock
+               when the time is missing and are not modelled (no outcome in them);
+   duration:   humanize_duration(report.duration) if report.duration is not None else "n/a"; then the integer variables. *)
 Record msg_ints := mkMsg {
-  mv_duration : Z;          (* milliseconds, before humanize_duration *)
+  mv_duration : option Z;   (* milliseconds, before humanize_duration; None: the duration variable reads "n/a" *)
   mv_total : nat; mv_enabled : nat;
   mv_passed : nat; mv_failed : nat; mv_skipped : nat; mv_disabled : nat }.
 
@@ -153,17 +172,22 @@ Definition message_ints (r : report) : vres msg_ints :=
   match from_report r with
   | VErr e => VErr e
   | VOk s =>
-      match rp_end r, rp_start r with
-      | Some e, Some b =>
-          let c := st_by s in
-          VOk (mkMsg (e - b)%Z (st_tests_nb s) (enabled_nb c) (n_passed c) (n_failed c) (n_skipped c) (n_disabled c))
-      | _, _ => VErr TypeError
-      end
+      let c := st_by s in
+      VOk (mkMsg (report_duration r) (st_tests_nb s) (enabled_nb c) (n_passed c) (n_failed c) (n_skipped c) (n_disabled c))
+  end.
+
+(* BEFORE F14: `duration` was humanize_duration(report.end_time - report.start_time): every variable being evaluated whatever
+   the template uses, build_message raised TypeError as soon as one of the two times was None *)
+Definition message_ints_unfixed (r : report) : vres msg_ints :=
+  match from_report r with
+  | VErr e => VErr e
+  | VOk _ => match rp_end r, rp_start r with
+             | Some _, Some _ => message_ints r
+             | _, _ => VErr TypeError
+             end
   end.
 
 (* ---------------- filtering suites (lcc report with a filter) ---------------- *)
-Definition is_nil {A} (l : list A) : bool := match l with [] => true | _ => false end.
-Definition is_none {A} (o : option A) : bool := match o with None => true | _ => false end.
 Definition filter_opt {A} (f : A -> bool) (o : option A) : option A :=
   match o with Some x => if f x then Some x else None | None => None end.
 
@@ -227,23 +251,14 @@ Definition console_short (truthy : bool) (f : result -> bool) (r : report) : vre
   end.
 
 (* ---------------- percentages ----------------
-   "%d" % (float(val) / of * 100)  if of else 0 : IEEE double arithmetic, then truncation.  val <= of for every use in
-   the code, so the value is in [0,100] and the truncation is the number of k in 1..100 with float(k) <= x.
-   The theorems of C20 do not depend on the primitive-float definitions below (they are compared with the implementation
-   by the correspondence check only); pct_exact is the exact value floor(100*val/of). *)
-From Coq Require Import Floats Uint63.
-Definition f_of_nat (n : nat) : float := PrimFloat.of_uint63 (Uint63.of_Z (Z.of_nat n)).
-Definition pct_float (val of : nat) : Z :=
-  match of with
-  | 0 => 0%Z
-  | _ => let x := PrimFloat.mul (PrimFloat.div (f_of_nat val) (f_of_nat of)) (f_of_nat 100) in
-         Z.of_nat (length (filter (fun k => PrimFloat.leb (f_of_nat k) x) (seq 1 100)))
-  end.
-Definition pct_exact (val of : nat) : Z :=
-  match of with 0 => 0%Z | _ => Z.quot (Z.of_nat val * 100) (Z.of_nat of) end.
+   _percent:                      "%d%%" % (val * 100 // of if of else 0)
+   successful_tests_percentage:   passed * 100 // tests_enabled_nb if tests_enabled_nb else 0     (printed with %d)
+   Integer arithmetic on non-negative numbers: `//` is the floor division of Z. *)
+Definition pct (val of : nat) : Z :=
+  match of with 0 => 0%Z | _ => (Z.of_nat val * 100 / Z.of_nat of)%Z end.
 
 Record pcts := mkPcts { p_passed : Z; p_failed : Z; p_skipped : Z; p_disabled : Z }.
 Definition message_pcts (m : msg_ints) : pcts :=
-  mkPcts (pct_float (mv_passed m) (mv_enabled m)) (pct_float (mv_failed m) (mv_enabled m))
-         (pct_float (mv_skipped m) (mv_enabled m)) (pct_float (mv_disabled m) (mv_total m)).
-Definition summary_pct (s : stats) : Z := pct_float (n_passed (st_by s)) (enabled_nb (st_by s)).
+  mkPcts (pct (mv_passed m) (mv_enabled m)) (pct (mv_failed m) (mv_enabled m))
+         (pct (mv_skipped m) (mv_enabled m)) (pct (mv_disabled m) (mv_total m)).
+Definition summary_pct (s : stats) : Z := pct (n_passed (st_by s)) (enabled_nb (st_by s)).
